@@ -56,7 +56,7 @@ class UnitW(Unit):
         out.spec(HEAD)
         self._trusted = []
         from .r import prelude
-        self._trusted += prelude(out, ['ax-display-ref', 'stdspec-as-deref', 'stdspec-bytelen', 'stdspec-as-bytes'])
+        self._trusted += prelude(out, ['ax-display-ref', 'stdspec-as-deref', 'stdspec-bytelen', 'stdspec-as-bytes', 'stdspec-contains'])
         self._trusted += sections(out, 'dep_io.rs', ['io-write-ghost'])
         self._trusted += sections(out, 'dep_misc.rs', ['inflector', 'url', 'roxmltree-error'])
         out.spec(MOD_HEAD)
